@@ -180,6 +180,7 @@ PROPS = {
         "timeout": 3000,
     },
     "C04": {
+        "noasync_also": True,
         "lean_props": ["ZarrsModel.Props.C04"],
         "harness": "c04",
         "rule": "C01's configurations and operations with fill-heavy data: half of the writes are entirely fill or differ from fill in one element chosen to be easily confused with it "
@@ -267,6 +268,7 @@ PROPS = {
         "timeout": 3000,
     },
     "C02": {
+        "noasync_also": True,
         "lean_props": ["ZarrsModel.Props.C02", "ZarrsModel.Props.C02Shard", "ZarrsModel.Props.C01Vlen", "ZarrsModel.Props.C02PackBits"],
         "harness": "c02",
         "harness_also": ["c02s", "c02v", "c02p"],
@@ -296,6 +298,7 @@ PROPS = {
         "timeout": 3000,
     },
     "C05": {
+        "noasync_also": True,
         
         "lean_props": ["ZarrsModel.Props.C05", "ZarrsModel.Props.C05Chain"],
         "harness": "c05",
